@@ -217,6 +217,8 @@ Proof.
       match fs path with
       | None => ([Open path false; Send (r_notfound cfg); Close], Done)
       | Some content =>
+          if term_overflows subst content
+          then ([Open path true; Send (r_ok cfg); Send (content_type fname'); Send s_crlf], Crash (Overflow 8)) else
           match body_effects cfg params subst (chunks (S (length content)) chunk_len content) with
           | None => ([Open path true; Send (r_ok cfg); Send (content_type fname'); Send s_crlf], Crash (Overflow 6))
           | Some body =>
@@ -232,6 +234,7 @@ Proof.
       change (Zlength s_index) with 10. unfold C20_DIR_MAX, C20_FULLFNAME_SIZE in *. lia. }
     destruct (Zlength (httpDir cfg) + Zlength fname' + 1 >? C20_FULLFNAME_SIZE) eqn:E2. { exfalso; lia. }
     destruct (fs (httpDir cfg ++ fname')) as [content|]; [|simpl; discriminate].
+    rewrite term_fits.
     destruct (body_effects_some cfg params (ends_with_vnc fname') (chunks (S (length content)) chunk_len content) Hd) as [b Hb].
     rewrite Hb. simpl. discriminate. }
   destruct q as [qs|].
@@ -318,6 +321,8 @@ Proof.
       match fs path with
       | None => ([Open path false; Send (r_notfound cfg); Close], Done)
       | Some content =>
+          if term_overflows subst content
+          then ([Open path true; Send (r_ok cfg); Send (content_type fname'); Send s_crlf], Crash (Overflow 8)) else
           match body_effects cfg params subst (chunks (S (length content)) chunk_len content) with
           | None => ([Open path true; Send (r_ok cfg); Send (content_type fname'); Send s_crlf], Crash (Overflow 6))
           | Some body =>
@@ -333,7 +338,7 @@ Proof.
       change (Zlength s_index) with 10. unfold C20_DIR_MAX, C20_FULLFNAME_SIZE in *. lia. }
     destruct (Zlength (httpDir cfg) + Zlength fname' + 1 >? C20_FULLFNAME_SIZE) eqn:E2. { exfalso; lia. }
     destruct (fs (httpDir cfg ++ fname')) as [content|]; [|simpl; discriminate].
-    destruct (body_effects cfg params (ends_with_vnc fname') (chunks (S (length content)) chunk_len content)).
+    rewrite term_fits; destruct (body_effects cfg params (ends_with_vnc fname') (chunks (S (length content)) chunk_len content)).
     - simpl. discriminate.
     - simpl. intro H; inversion H; reflexivity. }
   destruct q as [qs|].
